@@ -87,7 +87,10 @@ bool_t ppIsIrred(const word a[], size_t n, void* stack)
 
 size_t ppIsIrred_deep(size_t n)
 {
-	return O_OF_W(2 * n);
+	return O_OF_W(2 * n) +
+		utilMax(2,
+			ppGCD_deep(n, n),
+			ppSqrMod_deep(n));
 }
 
 /*
